@@ -1,5 +1,6 @@
 import SnaxVerif.Lemmas.AccfgMove
 import SnaxVerif.Lemmas.AccfgLoopOverlap
+import SnaxVerif.Lemmas.AccfgLoopCarried
 /-!
 # C06 — setup/compute overlap keeps every launch's configuration
 
@@ -105,6 +106,45 @@ example : (do
       (readsB rotExample).all (· < 14))) = some true := by
   decide
 
+/-- **Loop-level overlap on a loop with carried data values** (`scf.for … iter_args`, desugared by the converter into
+`q := cast x` in front of the loop, `p := cast q` at the head of the body, `q := cast y` at its end). The real pattern
+evaluates the copy in front of the loop with every block argument `p` replaced by the loop's init operand `x`, and the copy at
+the end of the body (in front of the yield) with `p` replaced by the yield operand `y` and `iv` by `iv + step`:
+`applyLoopOverlapCGen` (the init operands are found through the alias environment `aliasStep` accumulated along the block).
+Hypotheses as for `loop_overlap_preserves` plus the decidable `carrySide` (every parameter comes from a head cast whose carry
+register nothing else reads or defines, the trailing carry assignments are in SSA order, sources below `fresh`); either side
+condition on the ghost variant may be used. Then the trace is unchanged from every state: the values carried around the loop
+are the ones the setup of the *next* iteration would have seen (`rot_loop_C`). -/
+theorem loop_overlap_carried_preserves (cfg : Cfg) (path : List Nat) (j fresh : Nat) (b b' b2 bg : Block)
+    (h' : applyLoopOverlapCGen false false path j fresh b = some b')
+    (h2 : applyLoopOverlapCGen true false path j fresh b = some b2)
+    (hg : applyLoopOverlapCGen true true path j fresh b = some bg)
+    (hng : noGhostB b2 = true)
+    (hok : okTB cfg.fields bg [] = true ∨ (wfB bg = true ∧ okBb cfg.fields bg noFacts = true))
+    (hreads : ∀ x ∈ readsB b, x < fresh) (st : St) :
+    (execB cfg false b' st).tr = (execB cfg false b st).tr :=
+  loop_overlap_carried_trace cfg path j fresh b b' b2 bg h' h2 hg hng hok hreads st
+
+/-- a running pointer carried around the loop: `q := cast x0` … `for { p := cast q; setup(P = p, Q = %1); launch; await;
+p' := p + %2; q := cast p' }`, re-configured after the loop -/
+def rotCarriedExample : Block :=
+  .cons (.pure 11 (.const 1) []) <| .cons (.pure 20 .cast [0]) <|
+  .cons (.forS 5 6 7 12 (
+      .cons (.pure 13 .cast [20]) <| .cons (.setup 0 [(0, 13), (1, 1)]) <| .cons (.launch 0 [11]) <| .cons (.await 0) <|
+      .cons (.pure 14 .add [13, 2]) <| .cons (.pure 20 .cast [14]) .nil)) <|
+  .cons (.pure 21 .cast [20]) <|
+  .cons (.setup 0 [(0, 21), (1, 1)]) <| .cons (.launch 0 [11]) <| .cons (.await 0) .nil
+
+/-- non-vacuity: the carried rule applies to `rotCarriedExample` (the copy in front of the loop reads `%0`, the copy at the
+end of the body reads the yielded `%14`) and every hypothesis of `loop_overlap_carried_preserves` holds -/
+example : (do
+    let b' ← applyLoopOverlapCGen false false [2] 1 30 rotCarriedExample
+    let b2 ← applyLoopOverlapCGen true false [2] 1 30 rotCarriedExample
+    let bg ← applyLoopOverlapCGen true true [2] 1 30 rotCarriedExample
+    pure (noGhostB b2 && okTB (fun _ => [0, 1]) bg [] && (readsB rotCarriedExample).all (· < 30) &&
+      (usesB b').contains 0 && (usesB b').contains 14)) = some true := by
+  decide
+
 /-- One certified rewrite step of `accfg-config-overlap`. -/
 inductive StepOK (cfg : Cfg) : Block → Block → Prop where
   | move (path : List Nat) (flags : List Bool) {b b'} : applyBlockMove path flags b = some b' → wfB b = true → nodupB b = true →
@@ -117,6 +157,11 @@ inductive StepOK (cfg : Cfg) : Block → Block → Prop where
       applyLoopOverlapGen false false path j fresh b = some b' → applyLoopOverlapGen true false path j fresh b = some b2 →
       applyLoopOverlapGen true true path j fresh b = some bg → noGhostB b2 = true →
       okTB cfg.fields bg [] = true → (∀ x ∈ readsB b, x < fresh) → StepOK cfg b b'
+  | loopC (path : List Nat) (j fresh : Nat) (b2 bg : Block) {b b'} :
+      applyLoopOverlapCGen false false path j fresh b = some b' → applyLoopOverlapCGen true false path j fresh b = some b2 →
+      applyLoopOverlapCGen true true path j fresh b = some bg → noGhostB b2 = true →
+      (okTB cfg.fields bg [] = true ∨ (wfB bg = true ∧ okBb cfg.fields bg noFacts = true)) →
+      (∀ x ∈ readsB b, x < fresh) → StepOK cfg b b'
   | dce (path : List Nat) {b b'} : applyRule .dce path b = some b' → dceSide path b b' = true → StepOK cfg b b'
 
 /-- Any sequence of certified steps, in any order (whatever the greedy driver chooses). -/
@@ -132,6 +177,8 @@ theorem step_preserves {cfg : Cfg} {b b' : Block} (h : StepOK cfg b b') (st : St
     exact loop_overlap_preserves cfg path j fresh _ _ b2 bg h' h2 hg hng hwfg hok hr st
   | loopT path j fresh b2 bg h' h2 hg hng hok hr =>
     exact loop_overlap_preserves_taint cfg path j fresh _ _ b2 bg h' h2 hg hng hok hr st
+  | loopC path j fresh b2 bg h' h2 hg hng hok hr =>
+    exact loop_overlap_carried_preserves cfg path j fresh _ _ b2 bg h' h2 hg hng hok hr st
   | dce path h hside => exact (dce_trace cfg path _ _ h hside st).2
 
 /-- **C06 for every run whose steps are all certified**: the output of the pass has the same trace as its input — every launch
